@@ -157,7 +157,10 @@ func (vc *VC) specCall(sf *SpecFunc, args []Expr, env *Env) TV {
 	} else {
 		t = sx(si.name, as...)
 	}
-	vc.notePat(env, t)
+	if sf.Rec || sf.Body == nil {
+		// macros (define-fun) expand to connectives and cannot serve as patterns
+		vc.notePat(env, t)
+	}
 	return TV{T: si.ret, S: t}
 }
 
